@@ -635,6 +635,49 @@ func checkProgram(c *kernel.RunCtx, p *program, seeded scribbleMode, nAttach int
 			c.Count("probe.edited_state_changed_verdict", 1)
 		}
 	}
+	// late attachment: a debug.NewDebugger that has nothing but one BeforeExecute function when Execute starts; that
+	// function attaches everything else. From then on it must see what the direct recording saw.
+	if first := firstOf(rec.events, evBE); first >= 0 && len(rec.events) < maxEvents {
+		late := &recorder{max: maxEvents}
+		d := debug.NewDebugger()
+		attached := false
+		d.AttachBeforeExecute(func(*interpreter.State) {
+			if attached {
+				return
+			}
+			attached = true
+			d.AttachAfterExecute(late.AfterExecute)
+			d.AttachBeforeStep(late.BeforeStep)
+			d.AttachAfterStep(late.AfterStep)
+			d.AttachBeforeExecuteOpcode(late.BeforeExecuteOpcode)
+			d.AttachAfterExecuteOpcode(late.AfterExecuteOpcode)
+			d.AttachBeforeScriptChange(late.BeforeScriptChange)
+			d.AttachAfterScriptChange(late.AfterScriptChange)
+			d.AttachAfterSuccess(late.AfterSuccess)
+			d.AttachAfterError(late.AfterError)
+			d.AttachBeforeStackPush(late.BeforeStackPush)
+			d.AttachAfterStackPush(late.AfterStackPush)
+			d.AttachBeforeStackPop(late.BeforeStackPop)
+			d.AttachAfterStackPop(late.AfterStackPop)
+		})
+		c.Exec()
+		o := execProgramOn(c19Engine(), p, d)
+		if !o0.same(o) {
+			c.Fail("verdict", site, "executing through a debug.NewDebugger whose functions are attached from its BeforeExecute function changed the outcome: %s became %s (%s flags %x unlock %x lock %x)", o0, o, p.src, uint32(p.flags), p.unlock, p.lock)
+			return
+		}
+		var want []event
+		for _, e := range rec.events[first+1:] {
+			if e.kind != evBE {
+				want = append(want, e)
+			}
+		}
+		if dd := diffHistories(want, late.events); dd != "" || len(want) != len(late.events) {
+			c.Fail("fanout", site, "functions attached from inside the BeforeExecute function saw a different history (%d callbacks, the direct recording has %d after BeforeExecute): %s (%s flags %x unlock %x lock %x)", len(late.events), len(want), dd, p.src, uint32(p.flags), p.unlock, p.lock)
+			return
+		}
+		c.Count("probe.late_attachment_checked", 1)
+	}
 	// fan-out
 	for pass := 0; pass < 2; pass++ {
 		r := &recorder{max: maxEvents}
@@ -700,6 +743,15 @@ func hasThirdScript(h []event) bool {
 		}
 	}
 	return false
+}
+
+func firstOf(ev []event, k evKind) int {
+	for i := range ev {
+		if ev[i].kind == k {
+			return i
+		}
+	}
+	return -1
 }
 
 func attachRecorder(d debug.DefaultDebugger, r *recorder) {
